@@ -160,6 +160,7 @@ class YPPrologCompiler:
         return YPCodeProgram(funcs)
     def compile_function_body(self,clause):
         self._debug(f'-- Clause: {clause.head} :- {clause.body}')
+        self.current_clause = clause
         self.find_clause_head_variable_arguments(clause.head.functor.args)
         head_var_arguments = self.compile_clause_head_variable_arguments(clause.head.functor.args)
         self.push_bound_vars( [ v for v in self.head_args_by_pos if v != None ] )
@@ -363,27 +364,31 @@ class YPPrologCompiler:
         return code
     def compile_unification(self,var,val,code):
         return [ YPCodeForeach(YPCodeCall('unify',[YPCodeVar(var),self.compile_expression(val)]), code) ]
-    def compile_expression(self,expr):
+    def compile_expression(self,expr,brackets=0):
+        # brackets is the number of brackets this expression is nested in; Python refuses to parse
+        # more than 200 nested brackets, and the call this expression is an argument of adds some
+        if brackets > 180:
+            raise CompilerError(self.context.current_source_file, self.current_clause.ctx, 'clause is too large (term nested too deeply)')
         if isinstance(expr,Atom):
             return YPCodeCall('atom',[YPCodeExpr(expr.value)])
         if isinstance(expr,VariableTerm):
             return YPCodeVar(expr.varname)
         if isinstance(expr,Functor):
-            args = [ self.compile_expression(a) for a in expr.args ]
+            args = [ self.compile_expression(a,brackets+2) for a in expr.args ]
             return YPCodeCall('functor',[ YPCodeExpr(expr.name.value), YPCodeList(args) ])
         if isinstance(expr,NumeralTerm):
             return YPCodeValue(expr.num)
         if isinstance(expr,ListTerm):
-            return self.compile_list(expr)
+            return self.compile_list(expr,brackets)
         if isinstance(expr,ListPairTerm):
-            return YPCodeCall('listpair',[ self.compile_expression(expr.head), self.compile_expression(expr.tail) ])
+            return YPCodeCall('listpair',[ self.compile_expression(expr.head,brackets+1), self.compile_expression(expr.tail,brackets+1) ])
         self._debug("UNK EXPR", expr,repr(expr))
-    def compile_list(self,expr):
+    def compile_list(self,expr,brackets=0):
         self._debug("compile_list:",expr)
         if expr.items == []:
             return YPCodeVar('ATOM_NIL')
         else:
-            return YPCodeCall('makelist',[YPCodeList([ self.compile_expression(x) for x in expr.items ])])
+            return YPCodeCall('makelist',[YPCodeList([ self.compile_expression(x,brackets+2) for x in expr.items ])])
             # return NIL
     def find_clause_head_variable_arguments(self,args):
         # gets all arguments that are variables from args
